@@ -78,6 +78,13 @@ def as_found_models(wd):
                           workers=4, xmx="4g", timeout=900)
         expect("ImportMC with the bound name taken as %s violates InvAll (guard)" % sw,
                (not r["ok"]) and "Invariant InvAll is violated" in r["out"])
+    tabcfg = (beh.COMMENT_CFG % (2, "0, 1, 3, 6", 16, 2, "FALSE", "InvTextKept InvRelative InvHygiene InvConvergence")).replace(
+        'MidBodies = {"c1", "* s1", ""}', 'MidBodies <- MidBodiesTab')
+    r = C.model_check("CommentMC", tabcfg, os.path.join(wd, "af-cmt-tab-ok"), workers=4, xmx="4g", timeout=900)
+    expect("CommentMC with a tab-only comment line satisfies its invariants (code as repaired by F29)", r["ok"])
+    r = C.model_check("CommentMC", tabcfg.replace("AsFoundC = {}", 'AsFoundC = {"F29"}'), os.path.join(wd, "af-cmt-tab"), workers=4, xmx="4g", timeout=900)
+    expect("CommentMC with F29 as found (a tab-only line counts) violates InvConvergence",
+           (not r["ok"]) and "Invariant InvConvergence is violated" in r["out"])
     cfg = beh.MATHDELIM_CFG % (5, 2, 24, 2, "FALSE", "FALSE", "InvLineFeedsKept")
     r = C.model_check("MathDelimMC", cfg, os.path.join(wd, "af-mathdelim"), workers=4, xmx="4g", timeout=900)
     expect("MathDelimMC[inline] exhibits the recorded defect G07 (InvLineFeedsKept violated)",
